@@ -107,6 +107,8 @@ type VestWorld struct {
 	AuthzEvery int
 	ViaAuthz   int
 	msgNo      int
+	// Tx: the transaction layer (txmode.go); the zero value means every message runs through RunMsg
+	Tx TxMode
 }
 
 func NewVestWorld(vts []VType) *VestWorld {
@@ -171,6 +173,9 @@ func (v *VestWorld) NextFresh() sdk.AccAddress {
 // carrying the message.  What the message does must not depend on who submitted it.
 func (v *VestWorld) Run(msg sdk.Msg) MsgResult {
 	v.msgNo++
+	if res, done := v.runViaTx(msg); done {
+		return res
+	}
 	if v.AuthzEvery > 0 && v.msgNo%v.AuthzEvery == 0 && strings.HasPrefix(sdk.MsgTypeURL(msg), "/chain4energy") {
 		var signers []sdk.AccAddress
 		func() {
